@@ -99,6 +99,9 @@ var (
 	walletUses int
 )
 
+// wrapWalletDB (optional) wraps the wallet store handed to the account manager (the concurrent run adds scheduling points).
+var wrapWalletDB func(dbm.DB) dbm.DB
+
 func freshWalletDB(base string) dbm.DB {
 	if walletDB != nil && walletUses%16 == 0 {
 		walletDB.Close()
@@ -192,6 +195,9 @@ var kinds = []struct {
 func newWorld(base string, chain *protocol.Chain, rng *ev.Rand) (*world, error) {
 	w := &world{prv: map[chainkd.XPub]chainkd.XPrv{}, byID: map[string]int{}, utxos: map[bc.Hash]*utxoRec{}}
 	w.db = freshWalletDB(base)
+	if wrapWalletDB != nil {
+		w.db = wrapWalletDB(w.db)
+	}
 	w.mgr = account.NewManager(w.db, chain)
 
 	nacc := rng.Pick([]int{3, 4, 3}) + 1
